@@ -273,4 +273,17 @@ PROPS = {
             "observation goes through the public Value API (String, IsTrue, Iterate, Integer, Float, EqualValueTo) under autoescape off",
         ],
     },
+    "C11": {
+        "quick": [
+            {"test": "TestC11Compose", "checks": 40000, "shards": 4},
+        ],
+        "thorough": [
+            {"test": "TestC11Compose", "checks": 2400000, "shards": 16},
+        ],
+        "assumptions": [
+            "lazy includes are written with rooted names: the statement promises literal/computed equality for rooted names only (a lazy relative name resolves against the executing root template, not the referring file)",
+            "all loaders resolve names the same way (slash paths, rooted or relative to the referring file, cleaned)",
+            "reads of the real file system are detected through canary files in the worker's working directory whose text must never appear (system calls are not traced)",
+        ],
+    },
 }
